@@ -107,7 +107,11 @@ Definition cgem_obj_read (mver : Z) (l : bytes) : option ((Z * cgem) * bytes) :=
   l <- skip_obj_header l ;;
   '(nb, l) <- read_nbytes l ;;                      (* auto fNBytes = bparser.read_fNBytes() *)
   l <- skip 2 l ;;                                  (* skip_fVersion *)
-  mver <- (if mver =? -1 then (if nb =? 96 then Some 0 else if nb =? 88 then Some 1 else None) else Some mver) ;;
+  (* switch ( fNBytes ) { case 96: case 98: m_version = 0; case 88: case 90: m_version = 1; default: throw }
+     (+2 = the TObject carries kIsReferenced and is followed by a 2-byte pidf) *)
+  mver <- (if mver =? -1
+           then (if (nb =? 96) || (nb =? 98) then Some 0 else if (nb =? 88) || (nb =? 90) then Some 1 else None)
+           else Some mver) ;;
   l <- skip_tobject l ;;
   '(ints, l) <- rep (prim_dec PI32) 5 l ;;
   '(d1, l) <- rep (prim_dec PF64) 2 l ;;
